@@ -119,10 +119,12 @@ void q120_b_from_znx64_simple__c(uint64_t nn, q120b* const res, const int64_t* c
 __CPROVER_requires(nn <= MAXN) __CPROVER_requires(__CPROVER_is_fresh(res, nn * 32) && __CPROVER_is_fresh(x, nn * 8))
 __CPROVER_assigns(__CPROVER_object_upto(res, nn * 32));
 void q120_ntt_bb_avx2__c(const q120_ntt_precomp* const precomp, q120b* const data_ptr)
-__CPROVER_requires(__CPROVER_is_fresh(precomp, sizeof(*precomp)) && precomp->n <= MAXN && __CPROVER_is_fresh(data_ptr, precomp->n * 32))
+__CPROVER_requires(__CPROVER_is_fresh(precomp, sizeof(*precomp)) && precomp->n <= MAXN)
+__CPROVER_requires(__CPROVER_is_fresh(data_ptr, precomp->n * 32))
 __CPROVER_assigns(__CPROVER_object_upto(data_ptr, precomp->n * 32));
 void q120_intt_bb_avx2__c(const q120_ntt_precomp* const precomp, q120b* const data_ptr)
-__CPROVER_requires(__CPROVER_is_fresh(precomp, sizeof(*precomp)) && precomp->n <= MAXN && __CPROVER_is_fresh(data_ptr, precomp->n * 32))
+__CPROVER_requires(__CPROVER_is_fresh(precomp, sizeof(*precomp)) && precomp->n <= MAXN)
+__CPROVER_requires(__CPROVER_is_fresh(data_ptr, precomp->n * 32))
 __CPROVER_assigns(__CPROVER_object_upto(data_ptr, precomp->n * 32));
 void q120_b_to_znx128_simple__c(uint64_t nn, __int128_t* const res, const q120b* const x)
 __CPROVER_requires(nn <= MAXN) __CPROVER_requires(__CPROVER_is_fresh(res, nn * 16) && __CPROVER_is_fresh(x, nn * 32))
@@ -130,26 +132,30 @@ __CPROVER_assigns(__CPROVER_object_upto(res, nn * 16));
 #define WF_NTT120 (__CPROVER_is_fresh(module, sizeof(MODULE)) && 2 <= NN && NN <= MAXN && IS_POW2(NN))
 #define WF_NTT120_A __CPROVER_is_fresh(module->mod.q120.p_ntt, sizeof(q120_ntt_precomp))
 #define WF_NTT120_B __CPROVER_is_fresh(module->mod.q120.p_intt, sizeof(q120_ntt_precomp))
-#define WF_NTT120_C (module->mod.q120.p_ntt->n == NN && module->mod.q120.p_intt->n == NN)
+#define WF_NTT120_CA (module->mod.q120.p_ntt->n == NN)
+#define WF_NTT120_CB (module->mod.q120.p_intt->n == NN)
+// only the table the function uses is allocated, and in ONE requires clause with the module itself: with the is_fresh of a
+// member of the module's union in a separate clause, or with two of them, CBMC 6.11 loses the constraint on the pointee
+// (observed, not understood; the spurious failures were call-site preconditions, i.e. false alarms, never passes)
 #if RS > SMIN
 #define ENS_ZERO_ROWS_W(res, W) (GL < SMIN || BITS(res, (GL * NN + G) * (W)) == 0)
 #else
 #define ENS_ZERO_ROWS_W(res, W) 1
 #endif
 void ntt120_vec_znx_dft__c(const MODULE* module, VEC_ZNX_DFT* res, uint64_t res_size, const int64_t* a, uint64_t a_size, uint64_t a_sl)
-__CPROVER_requires(WF_NTT120) __CPROVER_requires(WF_NTT120_B) __CPROVER_requires(WF_NTT120_A) __CPROVER_requires(WF_NTT120_C) __CPROVER_requires(res_size == RS && a_size == AS && a_sl == NN * AM + AA && REQ_G)
+__CPROVER_requires(WF_NTT120 && WF_NTT120_A && WF_NTT120_CA) __CPROVER_requires(res_size == RS && a_size == AS && a_sl == NN * AM + AA && REQ_G)
 __CPROVER_requires(__CPROVER_is_fresh(res, RS * NN * 32) && __CPROVER_is_fresh(a, A_SMALL_BYTES))
 __CPROVER_assigns(__CPROVER_object_upto(res, RS * NN * 32))
 __CPROVER_ensures(ENS_ZERO_ROWS_W(res, 4)) /*@ntt120_dft_rows_beyond_input_are_zero:C11,C18,C15*/
 ;
 void ntt120_vec_znx_idft__c(const MODULE* module, VEC_ZNX_BIG* res, uint64_t res_size, const VEC_ZNX_DFT* a_dft, uint64_t a_size, uint8_t* tmp)
-__CPROVER_requires(WF_NTT120) __CPROVER_requires(WF_NTT120_B) __CPROVER_requires(WF_NTT120_A) __CPROVER_requires(WF_NTT120_C) __CPROVER_requires(res_size == RS && a_size == AS && REQ_G)
+__CPROVER_requires(WF_NTT120 && WF_NTT120_B && WF_NTT120_CB) __CPROVER_requires(res_size == RS && a_size == AS && REQ_G)
 __CPROVER_requires(__CPROVER_is_fresh(res, RS * NN * 16) && __CPROVER_is_fresh(a_dft, AS * NN * 32) && __CPROVER_is_fresh(tmp, NN * 32))  /* tmp: ntt120_vec_znx_idft_tmp_bytes_avx */
 __CPROVER_assigns(__CPROVER_object_upto(res, RS * NN * 16), __CPROVER_object_upto(tmp, NN * 32))
 __CPROVER_ensures(ENS_ZERO_ROWS_W(res, 2)) /*@ntt120_idft_rows_beyond_input_are_zero:C11,C18,C15*/
 ;
 void ntt120_vec_znx_idft_tmp_a__c(const MODULE* module, VEC_ZNX_BIG* res, uint64_t res_size, VEC_ZNX_DFT* a_dft, uint64_t a_size)
-__CPROVER_requires(WF_NTT120) __CPROVER_requires(WF_NTT120_B) __CPROVER_requires(WF_NTT120_A) __CPROVER_requires(WF_NTT120_C) __CPROVER_requires(res_size == RS && a_size == AS && REQ_G)
+__CPROVER_requires(WF_NTT120 && WF_NTT120_B && WF_NTT120_CB) __CPROVER_requires(res_size == RS && a_size == AS && REQ_G)
 __CPROVER_requires(__CPROVER_is_fresh(res, RS * NN * 16) && __CPROVER_is_fresh(a_dft, AS * NN * 32))
 __CPROVER_assigns(__CPROVER_object_upto(res, RS * NN * 16), __CPROVER_object_upto(a_dft, SMIN * NN * 32))
 __CPROVER_ensures(ENS_ZERO_ROWS_W(res, 2)) /*@ntt120_idft_tmp_a_rows_beyond_input_are_zero:C11,C18,C15*/
